@@ -112,25 +112,79 @@ fn check_roundtrip(m: &Mat, p: &mut Probe) -> Check {
         let back = parsed.map_err(|e| Fail::new("own-text-rejected", format!("from_alist rejected a valid alist: {e}\n{own}")))?;
         ensure!(back.num_rows() == m.rows && back.num_cols() == m.cols && sparse_set(&back) == want, "own-text", "from_alist of a valid alist gives another matrix\n{own}");
     }
-    // the same object written again after an edit (a toggle at a derived position and the removal of
-    // one entry): the texts are those of the edited matrix
+    // the same object written again after an edit (one of: toggle + remove, clear_row, clear_col, set_row,
+    // set_col, bulk insert_row with a repeated index; line and position derived from the matrix): the
+    // texts are those of the edited matrix
     if m.rows > 0 && m.cols > 0 {
         let mut h = h;
         let mut want = want;
         let pos = ((m.ones.len() * 7 + 1) % m.rows, (m.ones.len() * 3 + m.rows) % m.cols);
-        h.toggle(pos.0, pos.1);
-        if !want.remove(&pos) {
-            want.insert(pos);
-        }
-        if let Some(&e) = m.ones.first() {
-            h.remove(e.0, e.1);
-            want.remove(&e);
-        }
+        // the heaviest row / column (the line that determines the maximum-weight line of the text)
+        let heavy_row = (0..m.rows).max_by_key(|&i| rl[i].len()).unwrap_or(0);
+        let heavy_col = (0..m.cols).max_by_key(|&j| cl[j].len()).unwrap_or(0);
+        let kind = (m.ones.len() + m.rows + 2 * m.cols) % 7;
+        let what = match kind {
+            0 => {
+                h.toggle(pos.0, pos.1);
+                if !want.remove(&pos) {
+                    want.insert(pos);
+                }
+                if let Some(&e) = m.ones.first() {
+                    h.remove(e.0, e.1);
+                    want.remove(&e);
+                }
+                format!("toggle {pos:?}, remove {:?}", m.ones.first())
+            }
+            1 => {
+                h.clear_row(heavy_row);
+                want.retain(|e| e.0 != heavy_row);
+                format!("clear_row({heavy_row})")
+            }
+            2 => {
+                h.clear_col(heavy_col);
+                want.retain(|e| e.1 != heavy_col);
+                format!("clear_col({heavy_col})")
+            }
+            3 => {
+                // crosses the heaviest column
+                let r = cl[heavy_col].first().copied().unwrap_or(pos.0);
+                h.clear_row(r);
+                want.retain(|e| e.0 != r);
+                format!("clear_row({r}) across the heaviest column")
+            }
+            4 => {
+                let c = rl[heavy_row].first().copied().unwrap_or(pos.1);
+                let list = [pos.0, (pos.0 + 1) % m.rows];
+                h.set_col(c, list.iter());
+                want.retain(|e| e.1 != c);
+                for &r in &list {
+                    want.insert((r, c));
+                }
+                format!("set_col({c}, {list:?}) across the heaviest row")
+            }
+            5 => {
+                let list = [pos.1, (pos.1 + 1) % m.cols, pos.1];
+                h.set_row(pos.0, list.iter());
+                want.retain(|e| e.0 != pos.0);
+                for &c in &list {
+                    want.insert((pos.0, c));
+                }
+                format!("set_row({}, {list:?})", pos.0)
+            }
+            _ => {
+                let list = [pos.1, (pos.1 + 2) % m.cols, pos.1];
+                h.insert_row(pos.0, list.iter());
+                for &c in &list {
+                    want.insert((pos.0, c));
+                }
+                format!("insert_row({}, {list:?})", pos.0)
+            }
+        };
         for padded in [true, false] {
             let which = if padded { "alist()" } else { "alist_no_padding()" };
             let text = guarded(|| if padded { h.alist() } else { h.alist_no_padding() }).map_err(|e| Fail::new("writer-panic", format!("{which} after an edit panicked: {e}")))?;
             match strict_alist(&text, Some(padded)) {
-                Ok(back) => ensure!(back.rows == m.rows && back.cols == m.cols && back.set() == want, "format-matrix-after-edit", "{which} of an object that was written before and then edited (toggle {pos:?}, remove {:?}) does not describe the edited matrix:\n{text}", m.ones.first()),
+                Ok(back) => ensure!(back.rows == m.rows && back.cols == m.cols && back.set() == want, "format-matrix-after-edit", "{which} of an object that was written before and then edited ({what}) does not describe the edited matrix:\n{text}"),
                 Err(e) => return Err(Fail::new("format-after-edit", format!("{which} text after an edit is not a well-formed alist ({e}):\n{text}"))),
             }
             let back = guarded(|| SparseMatrix::from_alist(&text)).map_err(|e| Fail::new("parser-panic", format!("from_alist({which} after an edit) panicked: {e}")))?.map_err(|e| Fail::new("roundtrip-err", format!("from_alist rejected {which} output after an edit: {e}\n{text}")))?;
@@ -491,7 +545,7 @@ pub fn property() -> Property {
             }),
             Box::new(Sub {
                 name: "roundtrip",
-                rule: "(afterwards the written object is edited - one toggle, one removal - and written again: the texts must be those of the edited matrix) matrices 1..=12 x 1..=12 in seven density classes (all-zero, single entry, sparse, about half, full, forced empty row+column, uniform), ones inserted in shuffled order; oracle: alist()/alist_no_padding()/write_* -> own strict reader (header, true maxima, weight lines, strictly increasing 1-based lists, padding exactly to the maximum) and -> from_alist gives same dimensions and set; own writer's padded and unpadded texts parse to the matrix; non-trivial = an empty row/column or irregular weights",
+                rule: "(afterwards the written object is edited - toggle and removal, clear_row / clear_col of the heaviest line or across it, set_row / set_col, bulk insert_row with a repeated index - and written again: the texts must be those of the edited matrix) matrices 1..=12 x 1..=12 in seven density classes (all-zero, single entry, sparse, about half, full, forced empty row+column, uniform), ones inserted in shuffled order; oracle: alist()/alist_no_padding()/write_* -> own strict reader (header, true maxima, weight lines, strictly increasing 1-based lists, padding exactly to the maximum) and -> from_alist gives same dimensions and set; own writer's padded and unpadded texts parse to the matrix; non-trivial = an empty row/column or irregular weights",
                 cases: |t| t.pick(500_000, 10_000_000),
                 strategy: |t| matrix_strategy(t.pick(12, 24)),
                 check: check_roundtrip,
